@@ -583,6 +583,15 @@ def _has_binary_arrow_type(field_type: object) -> bool:
     return False
 
 
+def _has_explicit_arrow_type(field_type: object) -> bool:
+    """Check if a field type annotation carries any explicit ``ArrowType(...)`` override."""
+    if get_origin(field_type) is Annotated:
+        for arg in get_args(field_type)[1:]:
+            if isinstance(arg, ArrowType):
+                return True
+    return False
+
+
 class _FieldPlan(NamedTuple):
     """Precomputed per-field metadata used on the serialization hot paths."""
 
@@ -847,10 +856,17 @@ def _compact_plan(cls: "type[ArrowSerializableDataclass]") -> "_CompactPlan | No
     transient: list[tuple[str, object, object]] = []
     supported = _HAVE_MSGPACK
     if supported:
+        overrides = getattr(cls, "_ARROW_FIELD_OVERRIDES", {})
         for field_plan in _serialization_plan(cls).fields:
             if field_plan.transient:
                 transient.append((field_plan.name, field_plan.default, field_plan.default_factory))
                 continue
+            # An explicit Arrow type changes what the Arrow path stores -- float32
+            # rounds, a narrow integer range-checks -- and msgpack would do neither,
+            # so the decoded object would depend on the codec. Leave those to Arrow.
+            if field_plan.name in overrides or _has_explicit_arrow_type(field_plan.resolved_type):
+                supported = False
+                break
             inner, _nullable = _is_optional_type(field_plan.unwrapped_type)
             runtime = _COMPACT_TYPES.get(inner)
             if runtime is None:
